@@ -59,14 +59,14 @@ theorem G_evict_sub_clear {who : Nat → Prop} {fs fs' : FS} (h : G_evict π who
 /-- "Final names only ever hold complete content": a file named `output.pkl` is the complete pickle of a value computed
 for that entry's argument, a file named `metadata.json` is the complete metadata text. -/
 def FinalComplete (π : Par) (fs : FS) : Prop :=
-  (∀ a d, fs.dataAt (pOut a) = some d → ∃ v, d = π.cd.pickle ⟨v, a⟩) ∧
-  (∀ a d, fs.dataAt (pMeta a) = some d → d = π.cd.metaText)
+  (∀ a d, fs.dataAt (pOut a) = some d → ∃ v g, d = π.cd.pickle ⟨v, a, g⟩) ∧
+  (∀ a d, fs.dataAt (pMeta a) = some d → ∃ g, d = π.cd.metaText g)
 
 theorem inv_final {s : Bool} {fs : FS} (h : Inv π s fs) : FinalComplete π fs := by
   refine ⟨fun a d hd => ?_, fun a d hd => ?_⟩
   · obtain ⟨i, hi⟩ := dataAt_eq hd
-    obtain ⟨v, hv, _⟩ := h.out a i d hi
-    exact ⟨v, hv⟩
+    obtain ⟨v, g, hv, _⟩ := h.out a i d hi
+    exact ⟨v, g, hv⟩
   · obtain ⟨i, hi⟩ := dataAt_eq hd
     exact h.metaOk a i d hi
 
@@ -132,11 +132,11 @@ satisfy `G_calls` returns `f(a)` and does not raise. -/
 theorem call_correct_under_G_calls {me : Nat} {c : Cfg} {a : Nat} (hc : CfgOK π me c) (hsh : c.shelve = false)
     (hcd : CodecOK π.cd) {fs fs' : FS} {tr : List (FS × Op)} {out : Outcome Val}
     (hi : Inv π true fs) (hr : Runs (G_calls π (fun o => o ≠ me)) (callProc c a) fs tr out fs') :
-    out = .ok ⟨π.ver, a⟩ := by
+    ∃ g, out = .ok ⟨π.ver, a, g⟩ := by
   have h := ((callProc_sat (strong := True) (world_env .calls me) c hc a hcd).sound hr
     ((good_init (world_env .calls me)).stable) (pre_true fs hi)).2
   cases out with
-  | ok v => simp only [OutSat] at h; rw [h.2.2 hsh]
+  | ok v => simp only [OutSat] at h; obtain ⟨g, hg⟩ := h.2.2 hsh; exact ⟨g, by rw [hg]⟩
   | raised e =>
     simp only [OutSat, EC] at h
     rcases h with h | h
@@ -148,11 +148,11 @@ expiring validation callback, …). -/
 theorem call_correct_under_G_evict {me : Nat} {c : Cfg} {a : Nat} (hc : CfgOK π me c) (hsh : c.shelve = false)
     (hcd : CodecOK π.cd) {fs fs' : FS} {tr : List (FS × Op)} {out : Outcome Val}
     (hi : Inv π true fs) (hr : Runs (G_evict π (fun o => o ≠ me)) (callProc c a) fs tr out fs') :
-    out = .ok ⟨π.ver, a⟩ := by
+    ∃ g, out = .ok ⟨π.ver, a, g⟩ := by
   have h := ((callProc_sat (strong := True) (world_env .evict me) c hc a hcd).sound hr
     ((good_init (world_env .evict me)).stable) (pre_true fs hi)).2
   cases out with
-  | ok v => simp only [OutSat] at h; rw [h.2.2 hsh]
+  | ok v => simp only [OutSat] at h; obtain ⟨g, hg⟩ := h.2.2 hsh; exact ⟨g, by rw [hg]⟩
   | raised e =>
     simp only [OutSat, EC] at h
     rcases h with h | h
@@ -169,14 +169,14 @@ theorem call_keeps_invariant {lvl : Level} {me : Nat} {c : Cfg} {a : Nat} (hc : 
 /-! ## Against `Memory.clear()`
 
 Full statement (FALSE — `call_under_G_clear_can_raise`):
-  `call_correct_under_G_clear : … Runs (G_clear π (· ≠ me)) (callProc c a) fs tr out fs' → out = .ok ⟨π.ver, a⟩`. -/
+  `call_correct_under_G_clear : … Runs (G_clear π (· ≠ me)) (callProc c a) fs tr out fs' → ∃ g, out = .ok ⟨π.ver, a, g⟩`. -/
 
 /-- **call_correct_under_G_clear_partial.** Interleaved with participants that may clear the cache, a cached call
 never returns a wrong value: if it returns, it returns `f(a)`. (It may raise: F19.) -/
 theorem call_correct_under_G_clear_partial {me : Nat} {c : Cfg} {a : Nat} (hc : CfgOK π me c) (hsh : c.shelve = false)
     (hcd : CodecOK π.cd) {fs fs' : FS} {tr : List (FS × Op)} {v : Val}
     (hi : Inv π true fs) (hr : Runs (G_clear π (fun o => o ≠ me)) (callProc c a) fs tr (.ok v) fs') :
-    v = ⟨π.ver, a⟩ :=
+    ∃ g, v = ⟨π.ver, a, g⟩ :=
   ((callProc_sat (strong := True) (world_env .clear me) c hc a hcd).sound hr
     ((good_init (world_env .clear me)).stable) (pre_true fs hi)).2.2.2 hsh
 
@@ -189,7 +189,7 @@ def cdW : Codec := mkCodec false 1 [[100, 101, 102, 32, 102, 40, 120, 41, 58, 10
 def πW : Par := ⟨cdW, 0⟩
 def cfgW : Cfg := { codec := cdW, me := 0, ver := 0 }
 
-theorem cfgW_ok : CfgOK πW 0 cfgW := ⟨rfl, rfl, rfl, rfl⟩
+theorem cfgW_ok : CfgOK πW 0 cfgW := ⟨rfl, rfl, rfl, rfl, rfl, rfl, rfl⟩
 
 open JoblibModel.StoreIO in
 theorem cdW_ok : CodecOK cdW := by
@@ -240,17 +240,17 @@ theorem call_under_G_clear_can_raise :
 /-- Hence the full-strength statement is false. -/
 theorem call_correct_under_G_clear_counterexample :
     ¬ (∀ (fs fs' : FS) (tr : List (FS × Op)) (out : Outcome Val), Inv πW true fs →
-        Runs (G_clear πW (fun o => o ≠ 0)) (callProc cfgW 3) fs tr out fs' → out = .ok ⟨πW.ver, 3⟩) := by
+        Runs (G_clear πW (fun o => o ≠ 0)) (callProc cfgW 3) fs tr out fs' → ∃ g, out = .ok ⟨πW.ver, 3, g⟩) := by
   intro h
   obtain ⟨tr, fs', hi, hr⟩ := call_under_G_clear_can_raise
-  have := h _ _ _ _ hi hr
-  cases this
+  obtain ⟨g, hg⟩ := h _ _ _ _ hi hr
+  cases hg
 
 /-- **caller_leaves_G_calls.** A first-time caller that reads a half-written `func_code.py` (here: created by another
 first-time caller, not yet written — the empty file) removes `func_code.py` and the function directory: a step outside
 `G_calls` and `G_evict`. (`Memory` users that only *call* cached functions are therefore clearing participants.) -/
 theorem caller_leaves_G_calls :
-    ∃ fs, Inv πW true fs ∧ (run (callProc cfgW 3) fs).1 = .ok ⟨0, 3⟩ ∧
+    ∃ fs, Inv πW true fs ∧ (run (callProc cfgW 3) fs).1 = .ok ⟨0, 3, 0⟩ ∧
       (runLog (callProc cfgW 3) fs).1.any
         (fun x => (match x.1 with | .unlink p _ => p == pCode | _ => false) && x.2 == .ok) = true := by
   refine ⟨(run ((configure cfgW).bind fun _ => ensureFuncDir.bind fun _ => Prog.call (.creat pCode)) FS.empty).2,
@@ -278,7 +278,7 @@ theorem caller_leaves_G_calls :
 example : CodecOK cdW := cdW_ok
 example : CfgOK πW 0 cfgW := cfgW_ok
 example : Inv πW true FS.empty := inv_empty _ _
-example : (run (callProc cfgW 3) FS.empty).1 = .ok ⟨0, 3⟩ := by decide
-example : (run (callProc cfgW 3) (run (callProc { cfgW with me := 1 } 3) FS.empty).2).1 = .ok ⟨0, 3⟩ := by decide
+example : (run (callProc cfgW 3) FS.empty).1 = .ok ⟨0, 3, 0⟩ := by decide
+example : (run (callProc cfgW 3) (run (callProc { cfgW with me := 1 } 3) FS.empty).2).1 = .ok ⟨0, 3, 0⟩ := by decide
 
 end C11
